@@ -339,7 +339,11 @@ func drainAll(it gojq.Iter, ctx *simctx.Ctx) (outs []out, vals []any, panicked s
 			outs = append(outs, out{enc: "<step cap>", end: true})
 			return
 		}
-		outs = append(outs, out{enc: kernel.Enc(v), marshal: marshal(v)})
+		e := kernel.Enc(v)
+		if kernel.Cyclic(e) {
+			panic("the emitted value contains itself (a JSON value is a tree): " + kernel.Short(e))
+		}
+		outs = append(outs, out{enc: e, marshal: marshal(v)})
 		vals = append(vals, v)
 	}
 	return
@@ -548,7 +552,11 @@ func execute(d *Data) (*kernel.Violation, *stats) {
 			case func() bool { _, isErr := val.(error); return isErr && r.ctx.Closed }():
 				got = out{enc: "<step cap>", end: true}
 			default:
-				got = out{enc: kernel.Enc(val), marshal: marshal(val)}
+				e := kernel.Enc(val)
+				if kernel.Cyclic(e) {
+					panic("the emitted value contains itself (a JSON value is a tree): " + kernel.Short(e))
+				}
+				got = out{enc: e, marshal: marshal(val)}
 			}
 			st.advances++
 			if r.pos >= len(r.iso) {
